@@ -880,6 +880,7 @@ namespace pika::threads::detail {
     {
         pika::util::yield_while(
             []() {
+                PIKA_VERIF_SCOPE("gac.sample", nullptr, (static_cast<std::uint64_t>(pika::threads::detail::get_global_activity_count()) << 1) | (threads::detail::get_self_ptr() != nullptr ? 1u : 0u));
                 return pika::threads::detail::get_global_activity_count() >
                     (threads::detail::get_self_ptr() != nullptr ? 1 : 0);
             },
